@@ -179,3 +179,11 @@ P("C02", "srcfacts+mirfacts+rules",
   "index.ts is built from the writer's post-success list; every template variable path resolves to an inserted key and a serialised field.  Exhaustive over template paths and render sites; "
   "collisions that depend on user identifiers are not claimed.",
   "trusts Tera's parser (same version as the build) and serde's camelCase renaming of the context structs", a=True, b=True)
+
+P("C01", "srcfacts+mirfacts+rules",
+  "static analysis: template control-path enumeration + TypeScript skeleton lexing (TPATH/LEX), sink typing of every interpolation by hazard-class dataflow from model seeds through naming functions, context fields and filters (HAZARD), bracket balance of type-constructor frames (SHAPE), guard check on the type parser's fall-through (CTRL)",
+  "Decides the structural necessary conditions of syntactic validity: on every control path of every rendered template strings/comments terminate and ()[]{}<> nest, loop bodies are "
+  "self-balanced; every hole's lexical context (declared name, member, unquoted key, quoted string, comment, expression) is derived from the template text and compared with the characters "
+  "the filling Rust code may produce; every visitor frame is balanced; Rust type text reaches the output only through a validating guard.  Exhaustive over template paths, holes and "
+  "emitters; acceptance by a full TypeScript grammar is not claimed.",
+  "trusts Tera's parser (same version as the build) and the seed table of the input space (Rust identifiers, free-text renames, Tauri event alphabet)", a=True, b=True)
